@@ -317,6 +317,27 @@ def execute(plan: dict[str, Any]) -> dict[str, Any]:
                                    "detail": f"{tagp}: track {h} differs from the undamaged "
                                              f"unrestricted parse (damage={plan['damage']} in [{victim}])"})
                 return
+        if sel is not None and shape in ("superset", "absent") and not op.get("sel_fault"):
+            # naming pairs that the file does not have changes nothing: same keys (an empty entry
+            # for an instrument is a key), same chart as with the present pairs only
+            present_only = {**sel, "pairs": [x for x in sel["pairs"]
+                                             if gen.PAIR_TO_HEADER[tuple(x)] in set(headers)]}
+            try:
+                alt = world.parse_text(plan[op["file"]], present_only)
+                k1 = [i.name for i in chart.instrument_tracks]
+                k2 = [i.name for i in alt.instrument_tracks]
+                same_keys = sorted(k1) == sorted(k2)
+                same_eq = bool(chart == alt) and bool(alt == chart)
+            except Exception:  # noqa: BLE001 - the damaged selected section may raise: judged above
+                same_keys = same_eq = True
+                k1 = k2 = []
+            counters["absent_pairs_vs_present_only"] = counters.get("absent_pairs_vs_present_only", 0) + 1
+            if not (same_keys and same_eq):
+                violations.append({"sig": f"C13/absent-pairs-visible/{shape}/-",
+                                   "detail": f"{tagp}: the selection names pairs the file does not have; "
+                                             f"instrument keys {k1} vs {k2} with the present pairs only "
+                                             f"(charts equal: {same_eq})"})
+                return
         shared = rng.digest([observe_meta(chart.metadata), observe_sync(chart.sync_track),
                              observe_globals(chart.global_events_track)])
         if shared != ref_shared:
